@@ -318,6 +318,36 @@ type c13Model struct {
 	// in the source object: [section][kind]; an *osm.OSM source uses section 0 only. The entries
 	// of one feature appear in history order. nil = grouped by feature.
 	src *[3][3][]c13Ref
+	// direct: the concrete *osm.HistoryDatasource itself is handed to annotate.Change, not the
+	// recording wrapper around it (only for the three library-datasource kinds; no injected error).
+	direct bool
+	// phased: the datasource is first built with the first half of every history and used for one
+	// annotate.Change call; the remaining versions are then appended through the (exported) map
+	// fields and the call that is observed follows.
+	phased bool
+}
+
+func (m *c13Model) canDirect() bool { return m.mode >= c13DSLibMap }
+
+// cut is the number of entries of a history that exist when the datasource is constructed.
+func (m *c13Model) cut(h *c13Hist) int {
+	if m.phased {
+		return len(h.entries) / 2
+	}
+	return len(h.entries)
+}
+
+func (m *c13Model) dsName() string {
+	s := c13ModeName[m.mode]
+	if m.direct && m.canDirect() {
+		s += " passed as the concrete *osm.HistoryDatasource"
+	} else {
+		s += " behind the recording wrapper"
+	}
+	if m.phased {
+		s += "; second half of every history appended to the map fields after a first Change call"
+	}
+	return s
 }
 
 func (m *c13Model) built() bool { return m.mode == c13DSFromOSM || m.mode == c13DSFromChange }
@@ -366,6 +396,9 @@ func (m *c13Model) source() (*osm.OSM, *osm.Change) {
 		n := 0
 		for kind := 0; kind < 3; kind++ {
 			for _, ref := range l[sec][kind] {
+				if ref.idx >= m.cut(m.hist[ref.key]) {
+					continue // appended after construction
+				}
 				e := m.hist[ref.key].entries[ref.idx].clone()
 				if m.mode == c13DSFromChange && e.vis() != (sec != c13Delete) {
 					panic("c13: model inconsistent: visible flag does not fit the section of the history source")
@@ -484,7 +517,7 @@ func (m *c13Model) sortedKeys() []c13Key {
 // single returns the sub-model holding only item i with its history and fault.
 func (m *c13Model) single(i int) *c13Model {
 	it := m.items[i]
-	s := &c13Model{items: []c13Item{it}, secNil: [3]bool{true, true, true}, hist: map[c13Key]*c13Hist{}, opt: m.opt, mode: m.mode, fault: map[c13Key]int{}}
+	s := &c13Model{items: []c13Item{it}, secNil: [3]bool{true, true, true}, hist: map[c13Key]*c13Hist{}, opt: m.opt, mode: m.mode, fault: map[c13Key]int{}, direct: m.direct, phased: m.phased}
 	k := it.el.key()
 	if h, ok := m.hist[k]; ok {
 		s.hist[k] = &c13Hist{present: h.present, entries: append([]c13El(nil), h.entries...)}
@@ -496,7 +529,7 @@ func (m *c13Model) single(i int) *c13Model {
 }
 
 func (m *c13Model) describe() map[string]any {
-	d := map[string]any{"option": c13OptStr(m.opt), "datasource": c13ModeName[m.mode]}
+	d := map[string]any{"option": c13OptStr(m.opt), "datasource": m.dsName()}
 	secs := map[string][]string{}
 	for _, it := range m.items {
 		secs[c13SecName[it.sec]] = append(secs[c13SecName[it.sec]], it.el.str())
@@ -611,19 +644,19 @@ func c13NewDS(m *c13Model, reuse *c13DS) *c13DS {
 		switch k.kind {
 		case c13Node:
 			l := osm.Nodes{}
-			for _, e := range h.entries {
+			for _, e := range h.entries[:m.cut(h)] {
 				l = append(l, e.clone().n)
 			}
 			ds.nodes[osm.NodeID(k.id)] = l
 		case c13Way:
 			l := osm.Ways{}
-			for _, e := range h.entries {
+			for _, e := range h.entries[:m.cut(h)] {
 				l = append(l, e.clone().w)
 			}
 			ds.ways[osm.WayID(k.id)] = l
 		default:
 			l := osm.Relations{}
-			for _, e := range h.entries {
+			for _, e := range h.entries[:m.cut(h)] {
 				l = append(l, e.clone().r)
 			}
 			ds.relations[osm.RelationID(k.id)] = l
@@ -636,6 +669,39 @@ func c13NewDS(m *c13Model, reuse *c13DS) *c13DS {
 		ds.fault[k] = f
 	}
 	return ds
+}
+
+// appendLate adds the versions that did not exist at construction time through the map fields.
+func (ds *c13DS) appendLate(m *c13Model) {
+	for _, k := range m.sortedKeys() {
+		h := m.hist[k]
+		if !h.present {
+			continue
+		}
+		for _, e := range h.entries[m.cut(h):] {
+			c := e.clone()
+			switch k.kind {
+			case c13Node:
+				if ds.nodes == nil {
+					ds.nodes = map[osm.NodeID]osm.Nodes{}
+				}
+				ds.nodes[osm.NodeID(k.id)] = append(ds.nodes[osm.NodeID(k.id)], c.n)
+			case c13Way:
+				if ds.ways == nil {
+					ds.ways = map[osm.WayID]osm.Ways{}
+				}
+				ds.ways[osm.WayID(k.id)] = append(ds.ways[osm.WayID(k.id)], c.w)
+			default:
+				if ds.relations == nil {
+					ds.relations = map[osm.RelationID]osm.Relations{}
+				}
+				ds.relations[osm.RelationID(k.id)] = append(ds.relations[osm.RelationID(k.id)], c.r)
+			}
+		}
+	}
+	if ds.lib != nil {
+		ds.lib.Nodes, ds.lib.Ways, ds.lib.Relations = ds.nodes, ds.ways, ds.relations
+	}
 }
 
 func (ds *c13DS) notFoundErr(id c13Key) error {
@@ -760,7 +826,16 @@ func c13RunReuse(m *c13Model, reuse *c13DS) (out c13Out) {
 		}
 	}()
 	out.ds = c13NewDS(m, reuse)
-	out.diff, out.err = annotate.Change(context.Background(), out.change, out.ds, m.options()...)
+	var target osm.HistoryDatasourcer = out.ds
+	if m.direct && m.canDirect() {
+		target = out.ds.lib
+	}
+	if m.phased {
+		annotate.Change(context.Background(), m.change(), target, m.options()...) // first use; not the observed call
+		out.ds.calls, out.ds.nfCalls = nil, 0
+		out.ds.appendLate(m)
+	}
+	out.diff, out.err = annotate.Change(context.Background(), out.change, target, m.options()...)
 	return out
 }
 
@@ -1313,11 +1388,17 @@ func c13Judge(res *fw.Result, m *c13Model, c fw.Case, record bool) {
 		}
 		res.Eval(c13SecName[it.sec] + "/" + c13KindName[it.el.kind] + "/" + strings.Join(feats, "+") + "/" + ign + "/" + outcome)
 	}
-	res.Eval(fmt.Sprintf("change/cells=%09b/opt=%d/ds=%d/err=%v", cells, m.opt, m.mode, strings.SplitN(out.errClass(), "(", 2)[0]))
+	res.Eval(fmt.Sprintf("change/cells=%09b/opt=%d/ds=%d,direct=%v,phased=%v/err=%v", cells, m.opt, m.mode, m.direct && m.canDirect(), m.phased, strings.SplitN(out.errClass(), "(", 2)[0]))
 	res.Event(int64(len(out.ds.calls) + out.ds.nfCalls))
 	if out.diff != nil {
 		res.Event(int64(len(out.diff.Actions)))
 		res.Add("actions_observed", int64(len(out.diff.Actions)))
+	}
+	if m.direct && m.canDirect() {
+		res.Add("changes_annotated_with_concrete_HistoryDatasource", 1)
+	}
+	if m.phased {
+		res.Add("changes_annotated_after_appending_to_datasource", 1)
 	}
 	res.Add("history_calls", int64(len(out.ds.calls)))
 	res.Add("notfound_calls", int64(out.ds.nfCalls))
@@ -1529,6 +1610,8 @@ func c13PickVersion0(r *gen.R, h *c13Hist, sec int) int {
 func c13GenModel(r *gen.R) *c13Model {
 	m := &c13Model{hist: map[c13Key]*c13Hist{}, fault: map[c13Key]int{}}
 	m.mode = r.Intn(c13NModes)
+	m.direct = m.canDirect() && r.Bool()
+	m.phased = r.Chance(0.2)
 	m.opt = r.Intn(3) // IgnoreMissingChildren absent | true | false, crossed with the options that must not matter
 	if r.Chance(0.3) {
 		m.opt += 3 * 1 // Threshold
@@ -1600,7 +1683,7 @@ func c13GenModel(r *gen.R) *c13Model {
 			}
 		}
 	}
-	if r.Chance(0.15) && len(m.items) > 0 {
+	if r.Chance(0.15) && len(m.items) > 0 && !m.direct {
 		it := m.items[r.Intn(len(m.items))] // may be a created element: then the fault must not matter
 		m.fault[it.el.key()] = r.Intn(c13NFaults)
 	}
@@ -1725,6 +1808,7 @@ func c13Exec(c fw.Case) *fw.Result {
 				for ord := 0; ord < orders; ord++ {
 					m := &c13Model{hist: map[c13Key]*c13Hist{}, fault: map[c13Key]int{}, secNil: [3]bool{true, true, true}}
 					m.mode = n % c13NModes
+					m.direct, m.phased = m.canDirect() && (n/c13NModes)%2 == 1, (n/(2*c13NModes))%3 == 2
 					imc := []int{c13OptNone, c13OptIgnoreFalse}[n%2]
 					if ign {
 						imc = c13OptIgnore
@@ -1826,7 +1910,8 @@ func c13Exec(c fw.Case) *fw.Result {
 					continue
 				}
 				m := &c13Model{hist: map[c13Key]*c13Hist{ka: {present: true}, kb: {present: true}}, fault: map[c13Key]int{},
-					secNil: [3]bool{true, true, true}, mode: mode, opt: []int{c13OptNone, c13OptIgnore}[n%2] + 3*(n%c13NUnrelated)}
+					secNil: [3]bool{true, true, true}, mode: mode, opt: []int{c13OptNone, c13OptIgnore}[n%2] + 3*(n%c13NUnrelated),
+					direct: n%2 == 1, phased: n%5 == 4}
 				var l [3][3][]c13Ref
 				for pos := 0; pos < 5; pos++ {
 					k := kb
@@ -1873,7 +1958,7 @@ func c13Exec(c fw.Case) *fw.Result {
 					}
 					for ign := 0; ign < 2; ign++ {
 						for mode := 0; mode < c13NModes; mode++ {
-							m := &c13Model{hist: map[c13Key]*c13Hist{}, fault: map[c13Key]int{}, mode: mode, opt: ign + 3*(n%c13NUnrelated)}
+							m := &c13Model{hist: map[c13Key]*c13Hist{}, fault: map[c13Key]int{}, mode: mode, opt: ign + 3*(n%c13NUnrelated), direct: mode >= c13DSLibMap && n%2 == 1, phased: n%3 == 2}
 							for sec := 0; sec < 3; sec++ {
 								for kind := 0; kind < 3; kind++ {
 									m.items = append(m.items, c13Item{sec, c13MakeEl(r, kind, id, []int{9, 3, 4}[sec], false)})
@@ -1929,7 +2014,7 @@ func init() {
 		Level: "exploration",
 		Rule: "random (osmChange, histories, option, datasource) triples from a harness-side model: 0-4 elements in each of the nine (create|modify|delete)x(node|way|relation) cells over small id pools (12 % of the ids outside the packed-id domain: negative, 0, >= 2^40, near +-2^62) " +
 			"(same feature in several sections), histories sorted/reversed/shuffled with version gaps, later versions, duplicates of the element's own version, duplicated predecessors, large versions, empty, or not found; " +
-			"54 option sets (IgnoreMissingChildren absent|true|false x Threshold absent|1m x IgnoreInconsistency absent|true|false x ChildFilter absent|reject|accept), in the enumeration every history without predecessor and every injected-error flavour against all 18 combinations of the options that must not matter; five datasource behaviours behind a call-recording wrapper (own sentinel, own wrapped typed error, the library's map datasource filled directly, and histories handed over as an *osm.OSM or spread over the sections of an *osm.Change and turned into a datasource by the library's own HistoryDatasource() methods - grouped, interleaved, round-robin or two-run layouts) that can inject a non-not-found error (three flavours); " +
+			"54 option sets (IgnoreMissingChildren absent|true|false x Threshold absent|1m x IgnoreInconsistency absent|true|false x ChildFilter absent|reject|accept), in the enumeration every history without predecessor and every injected-error flavour against all 18 combinations of the options that must not matter; each of the three library-datasource kinds is passed either behind the recording wrapper or as the concrete *osm.HistoryDatasource itself (struct literal over directly filled exported maps, or the constructors' result), and 20 % of the changes are annotated after a first Change call followed by appending the second half of every history through the exported map fields; five datasource behaviours behind a call-recording wrapper (own sentinel, own wrapped typed error, the library's map datasource filled directly, and histories handed over as an *osm.OSM or spread over the sections of an *osm.Change and turned into a datasource by the library's own HistoryDatasource() methods - grouped, interleaved, round-robin or two-run layouts) that can inject a non-not-found error (three flavours); " +
 			"plus a seed-independent small-scope enumeration: one modified/deleted element of version 1..6 against every subset of history versions 1..6 in five orders, empty and missing, per kind, section and option, and two histories handed to HistoryDatasource() in every interleaving and every admissible section spread. " +
 			"The expectation comes from an independent reference (sort by version, first below). One evaluation per changed element with signature (section, kind, history features, strict|ignore, outcome) " +
 			"and one per change with signature (cell mask, option set, datasource, error class); distinct_nontrivial counts distinct signatures.",
@@ -1944,6 +2029,7 @@ func init() {
 			"element ids are not restricted by the statement: negative ids (editor placeholders), 0, ids >= 2^40 and near +-2^62 are generated in every section and kind with histories under the same ids and fully asserted (the unchanged library yields the exact diff for them); only the ID field of *NoVisibleChildError is not asserted when an element without predecessor has an id outside [0, 2^40), because a packed FeatureID cannot name it (node -1, way -1 and relation -1 all pack to the same value)",
 			"'missing children are ignored' means IgnoreMissingChildren(true) was passed - the only option annotate.Change documents; Threshold, IgnoreInconsistency(true|false), ChildFilter and IgnoreMissingChildren(false) must not change the outcome: without IgnoreMissingChildren(true) a missing history and a missing earlier version alike are reported as the typed error",
 			"a panic of annotate.Change on such inputs is reported as a violation (no diff was yielded)",
+			"the exported map fields of osm.HistoryDatasource are part of its API: a datasource assembled as a struct literal, or extended by appending to Nodes/Ways/Relations after construction and after earlier use, is a valid history (in any order) and is asserted like any other; with the concrete type there is no call recording and no injected error",
 			"for datasources built by the library from an *osm.OSM / *osm.Change: the versions of a feature are returned in source order (creates, modifies, deletes for a change), create/modify entries are visible and delete entries are not (the model only places them so); the source object being modified is an observation, asserted only through its effect: building the datasource a second time from the same object must give the same diff",
 		},
 		Cases: func(tier string, seed uint64) []fw.Case {
